@@ -130,6 +130,13 @@ def run_shard(args):
         oh = hashlib.sha256(old_data).hexdigest()
         src += f"\n\ndef test_changed_external():\n    assert outsource('new data {rng.randint(0, 999)}') == snapshot(external('{oh[:12]}*.txt'))\n"
         pfiles = {"test_a.py": src, f".inline-snapshot/external/{oh}.txt": old_data, f".inline-snapshot/external/{hashlib.sha256(stale).hexdigest()}.bin": stale}
+        if (args.shard + c) % 4 == 3:
+            # the first run changes the file without changing its size (the second session must not run a stale
+            # byte-code cache of the old source)
+            x, y = rng.sample(range(11, 98), 2)
+            src = f"from inline_snapshot import snapshot\n\n\ndef test_a():\n    assert {x} == snapshot({x + 1})\n    assert 'ab{y}' == snapshot('ba{y}')\n\n\ndef test_b():\n    assert [{y}, {x}] == snapshot([{x}, {y}])\n"
+            pfiles = {"test_a.py": src}
+            C["same_size_rewrites"] = C.get("same_size_rewrites", 0) + 1
         proj = session.Project(pfiles)
         try:
             fl = ["--inline-snapshot=create,fix,trim,update"]
